@@ -6,13 +6,13 @@
 //
 //	(1) builds the native arguments once, keeping deep copies (strings cloned, objects read through their accessors); the slices
 //	    handed to the function have spare capacity filled with sentinels;
-//	(2) calls the function 8 times with those same arguments, two decoy calls between two repeats (A, X, B, A, B', X', A, ...): state
+//	(2) calls the function 9 times (8, and once more after all the other calls) with those same arguments, two decoy calls between two repeats (A, X, B, A, B', X', A, ...): state
 //	    kept between calls under a key that omits an argument shows up as a repeat that differs from the first;
 //	(3) calls it on permutations of every input list (coarse-first, fine-first, two seeded shuffles) and on the list with entries
 //	    repeated (every entry twice in place, one entry three times in place, the list appended to itself);
 //	(4) after every call compares the inputs (length, every string byte for byte, every object field, the sentinels) with the copies;
 //
-// and returns [inputs_unmodified; repeats; permuted; duplicated]. The verdict is computed by the extracted Coq checker
+// and returns [inputs_unmodified; repeats; permuted; duplicated; permuted runs refused by a size guard; duplicated runs refused]. The verdict is computed by the extracted Coq checker
 // (DC16.check_det, proved sound): repeats equal as multisets of canonical items, permuted / duplicated runs the same set of
 // members, no member twice where the operation is documented as de-duplicated, flag true; corr = first repeat against the model.
 //
@@ -45,12 +45,12 @@ type inst struct {
 
 type op struct {
 	name  string
-	lists []int                       // positions (in fargs) of the input lists that may be permuted / repeated
-	build func(a []w.Val) *inst       // nil: wrong shape, or the call would be too large (only the shrinker proposes those)
-	zkey  func(item w.Val) int64      // zoom of one list entry: coarse-first and fine-first orders
+	lists []int                  // positions (in fargs) of the input lists that may be permuted / repeated
+	build func(a []w.Val) *inst  // nil: wrong shape, or the call would be too large (only the shrinker proposes those)
+	zkey  func(item w.Val) int64 // zoom of one list entry: coarse-first and fine-first orders
 }
 
-const repeats = 8
+const repeats = 8 // plus one more after all the variants
 
 func replaced(a []w.Val, i int, v w.Val) []w.Val {
 	c := append([]w.Val{}, a...)
@@ -115,26 +115,69 @@ func asListVal(v w.Val) (w.List, bool) {
 	return nil, false
 }
 
+// variantArgs: the argument vectors of the permuted and of the duplicated runs (deterministic in seed)
+func variantArgs(o *op, fargs []w.Val, seed int64) (perms, dups [][]w.Val) {
+	rng := rand.New(rand.NewSource(seed))
+	for _, li := range o.lists {
+		if li >= len(fargs) {
+			continue
+		}
+		l, ok := asListVal(fargs[li])
+		if !ok {
+			continue
+		}
+		for _, pv := range permVariants(o, l, rng) {
+			perms = append(perms, replaced(fargs, li, pv))
+		}
+		for _, dv := range dupVariants(l, rng) {
+			dups = append(dups, replaced(fargs, li, dv))
+		}
+	}
+	// both lists of a two-list operation permuted together
+	if len(o.lists) == 2 && o.lists[0] < len(fargs) && o.lists[1] < len(fargs) {
+		l1, ok1 := asListVal(fargs[o.lists[0]])
+		l2, ok2 := asListVal(fargs[o.lists[1]])
+		if ok1 && ok2 && len(l1) > 1 && len(l2) > 1 {
+			p1, p2 := permVariants(o, l1, rng), permVariants(o, l2, rng)
+			perms = append(perms, replaced(replaced(fargs, o.lists[0], p1[len(p1)-1]), o.lists[1], p2[len(p2)-1]))
+		}
+	}
+	return perms, dups
+}
+
+// longestList: length of the longest permutable list argument (variants exist from 2 entries on)
+func longestList(o *op, fargs []w.Val) int {
+	n := 0
+	for _, li := range o.lists {
+		if li < len(fargs) {
+			if l, ok := asListVal(fargs[li]); ok && len(l) > n {
+				n = len(l)
+			}
+		}
+	}
+	return n
+}
+
 func (o *op) fn() *run.Fn {
 	return &run.Fn{Name: "Det:" + o.name, Timeout: 40 * time.Second, Invoke: func(args []w.Val) w.Val {
 		if len(args) != 3 {
-			return w.S(skipMarker)
+			return w.S(badShape)
 		}
 		fargs, ok1 := asListVal(args[0])
 		decoyL, ok2 := asListVal(args[1])
 		seedV, ok3 := args[2].(w.Int)
-		if !ok1 || !ok2 || !ok3 {
-			return w.S(skipMarker)
+		if !ok1 || !ok2 || !ok3 || !seedV.V.IsInt64() {
+			return w.S(badShape)
 		}
 		seed := seedV.V.Int64()
-		A := safeBuild(o, fargs)
+		A, why := safeBuild(o, fargs)
 		if A == nil {
-			return w.S(skipMarker)
+			return w.S(why)
 		}
 		var decoys []*inst
 		for _, d := range decoyL {
 			if da, ok := asListVal(d); ok {
-				if in := safeBuild(o, da); in != nil {
+				if in, _ := safeBuild(o, da); in != nil {
 					decoys = append(decoys, in)
 				}
 			}
@@ -163,53 +206,54 @@ func (o *op) fn() *run.Fn {
 				}
 			}
 		}
-		rng := rand.New(rand.NewSource(seed))
+		pa, da := variantArgs(o, fargs, seed)
 		perms, dups := w.List{}, w.List{}
-		for _, li := range o.lists {
-			if li >= len(fargs) {
-				continue
-			}
-			l, ok := asListVal(fargs[li])
-			if !ok {
-				continue
-			}
-			for _, pv := range permVariants(o, l, rng) {
-				if in := safeBuild(o, replaced(fargs, li, pv)); in != nil {
-					perms = append(perms, runI(in))
-				}
-			}
-			for _, dv := range dupVariants(l, rng) {
-				if in := safeBuild(o, replaced(fargs, li, dv)); in != nil {
-					dups = append(dups, runI(in))
-				}
+		droppedP, droppedD := int64(0), int64(0)
+		for _, a := range pa {
+			if in, _ := safeBuild(o, a); in != nil {
+				perms = append(perms, runI(in))
+			} else {
+				droppedP++
 			}
 		}
-		// both lists of a two-list operation permuted together
-		if len(o.lists) == 2 && o.lists[0] < len(fargs) && o.lists[1] < len(fargs) {
-			l1, ok1 := asListVal(fargs[o.lists[0]])
-			l2, ok2 := asListVal(fargs[o.lists[1]])
-			if ok1 && ok2 && len(l1) > 1 && len(l2) > 1 {
-				p1, p2 := permVariants(o, l1, rng), permVariants(o, l2, rng)
-				a2 := replaced(replaced(fargs, o.lists[0], p1[len(p1)-1]), o.lists[1], p2[len(p2)-1])
-				if in := safeBuild(o, a2); in != nil {
-					perms = append(perms, runI(in))
-				}
+		for _, a := range da {
+			if in, _ := safeBuild(o, a); in != nil {
+				dups = append(dups, runI(in))
+			} else {
+				droppedD++
 			}
 		}
 		// the original arguments once more, after all the other calls
 		reps = append(reps, runI(A))
-		return w.L(w.B(unmodified), reps, perms, dups)
+		// [inputs unmodified; repeats; permuted; duplicated; permuted runs refused by a size guard; duplicated runs refused]
+		return w.L(w.B(unmodified), reps, perms, dups, w.I(droppedP), w.I(droppedD))
 	}}
 }
 
-// safeBuild: a builder that meets arguments of an unexpected shape (only the shrinker produces them) refuses the call
-func safeBuild(o *op, a []w.Val) (in *inst) {
+const badShape = "bad-shape"         // arguments that no generator produces (shrinker): the dispatcher answers bad-case
+const builderPanic = "builder-panic" // a builder or its guard panicked: never a pass
+
+// safeBuild: the call, or why it is refused: skipMarker (a size guard; the dispatcher re-checks the estimate where it has one),
+// builderPanic (a guard or constructor panicked on the arguments)
+func safeBuild(o *op, a []w.Val) (in *inst, why string) {
 	defer func() {
 		if e := recover(); e != nil {
-			in = nil
+			in, why = nil, builderPanic
 		}
 	}()
-	return o.build(a)
+	if in = o.build(a); in == nil {
+		return nil, skipMarker
+	}
+	return in, ""
+}
+
+func opByName(name string) *op {
+	for _, o := range ops {
+		if o.name == name {
+			return o
+		}
+	}
+	panic("harness: unknown operation " + name)
 }
 
 // ---------------------------------------------------------------------------------------------- input copies
@@ -219,6 +263,10 @@ var sentinels = []string{"\x00sentinel-a", "\x00sentinel-b", "\x00sentinel-c"}
 // strsIn: the slice handed to the function (fresh backing array, cloned strings, spare capacity holding sentinels) and the check
 // that it still equals the private copy.
 func strsIn(v w.Val) ([]string, func() bool) {
+	if _, isNil := v.(w.Nil); isNil { // a nil slice is handed over as nil
+		var in []string
+		return in, func() bool { return in == nil }
+	}
 	src := w.AsStrs(v)
 	n := len(src)
 	full := make([]string, n+len(sentinels))
@@ -275,7 +323,7 @@ func boolRes(b bool, err error) w.Val {
 // ---------------------------------------------------------------------------------------------- registry
 
 func init() {
-	Scale["C16"] = 1300
+	Scale["C16"] = 1150
 	Registry["C16"] = func(r *run.Runner, g *Gen, n int) {
 		for _, o := range ops {
 			r.Register(o.fn())
@@ -288,10 +336,11 @@ func init() {
 		}
 		fixedCases(r)
 		for i := 0; i < n; i++ {
-			genOne(r, g, i)
+			for try := 0; try < 8 && !genOne(r, g, i); try++ {
+			}
 		}
 		for k, v := range profile {
-			fmt.Fprintf(os.Stderr, "profile %-55s %8.2fs\n", k, v.Seconds())
+			fmt.Fprintf(os.Stderr, "profile %-55s %8.2fs refused-and-redrawn %d\n", k, v.Seconds(), refused[k])
 		}
 	}
 }
@@ -299,16 +348,39 @@ func init() {
 // C16_PROFILE=1: time spent per entry (implementation calls + model verdict), printed at the end of the run
 var profile map[string]time.Duration
 
-func emit(r *run.Runner, name string, fargs []w.Val, decoys [][]w.Val, seed int64, tags []string, trivial bool) {
+// emit runs one case. A generated call that its own size guard refuses is not issued (false: the generator draws again).
+// Trivial (not counted as distinct non-trivial): the caller's own rule; a first call that returns an error (nine errors are compared
+// with each other); a list-taking operation whose lists all have fewer than two entries (no permuted run exists).
+func emit(r *run.Runner, name string, fargs []w.Val, decoys [][]w.Val, seed int64, tags []string, trivial bool) bool {
+	o := opByName(name)
+	in, _ := safeBuild(o, fargs)
+	if in == nil {
+		refused[name]++
+		return false
+	}
+	if _, isErr := in.call().(w.Err); isErr {
+		tags = append(tags, "error-result")
+		trivial = true
+	}
+	if len(o.lists) > 0 {
+		if longestList(o, fargs) < 2 {
+			tags = append(tags, "no-variants")
+			trivial = true
+		} else {
+			pa, da := variantArgs(o, fargs, seed)
+			for _, a := range append(pa, da...) {
+				if v, _ := safeBuild(o, a); v == nil {
+					tags = append(tags, "variants-dropped")
+					break
+				}
+			}
+		}
+	} else {
+		tags = append(tags, "repeats-only")
+	}
 	dl := make(w.List, len(decoys))
 	for i, d := range decoys {
 		dl[i] = w.List(d)
-	}
-	for _, o := range ops {
-		if o.name == name && safeBuild(o, fargs) == nil { // visible in the distribution: the generator produced a call beyond a guard
-			tags = append(tags, "generated-but-skipped")
-			trivial = true
-		}
 	}
 	if profile != nil {
 		t0 := time.Now()
@@ -316,4 +388,8 @@ func emit(r *run.Runner, name string, fargs []w.Val, decoys [][]w.Val, seed int6
 	}
 	r.Run(run.Case{Prop: "C16", Fn: "Det:" + name, Tags: append([]string{"fn=" + name}, tags...), Trivial: trivial,
 		Args: []w.Val{w.List(fargs), dl, w.I(seed)}})
+	return true
 }
+
+// refused: generated calls that a size guard refused (drawn again), per operation; printed with C16_PROFILE
+var refused = map[string]int{}
